@@ -3,8 +3,9 @@
    Proof/SchemaLangProof.v.  [rl] is the number of Python frames available below _validate (recursion limit
    minus the depth of the caller); [cnl text] the number of newline characters of the text, so that the
    lexer's line counter ends at cnl text + 1; [groups_of text] the number of declared groups. *)
+From Coq Require Import String.
 From Coq Require Import NArith ZArith List Bool.
-From MJV Require Import Model.SchemaLang Model.SchemaLangSpec Proof.SchemaLangProof.
+From MJV Require Import Model.SchemaLang Model.SchemaLangSpec Proof.SchemaLangProof Proof.SchemaLangSound.
 Import ListNotations.
 Open Scope N_scope.
 
@@ -34,18 +35,26 @@ Print Assumptions C41_total_within_limit.
 
 (* ... but the limit is real: "no other exception escapes" is FALSE of the faithful model.  The text
    group g0 { use g1 } ... group g999 { use g1000 } group g1000 { a : int }  (1001 groups, 23.8 kB) makes
-   parse_string raise RecursionError with all of CPython's default 1000 frames available below _validate
-   (and with the 994 measured under the driver); the same family is accepted as soon as the budget reaches
+   parse_string raise RecursionError for EVERY budget up to CPython's default limit of 1000 frames (994 are
+   available below _validate under the driver); the same family is accepted as soon as the budget reaches
    the chain length (shown at length 101: the 1001-group instance needs ~10^8 steps in _check_group_cycle,
    it is replayed on the implementation by the check). *)
 Theorem C41_recursion_refuted :
-  parse_string 1000 (chain_text 1001) = PyExn RecursionError /\
-  parse_string 994 (chain_text 1001) = PyExn RecursionError /\
+  (forall rl, (rl <= 1000)%nat -> parse_string rl (chain_text 1001) = PyExn RecursionError) /\
   groups_of (chain_text 1001) = 1001%nat /\
   parse_string 100 (chain_text 101) = PyExn RecursionError /\
   is_ok (parse_string 101 (chain_text 101)) = true.
-Proof. exact recursion_refuted. Qed.
+Proof. exact recursion_refuted_full. Qed.
 Print Assumptions C41_recursion_refuted.
+
+(* the RecursionError is monotone: if the cycle check runs out of frames with budget rl, parse_string raises
+   RecursionError for every smaller budget as well *)
+Theorem C41_recursion_monotone :
+  forall (text : str) (s : schema) (rl : nat) (e : pyexn),
+    parse_text text = Ok s -> cycle_step rl (s_groups s) = VExn e ->
+    forall rl', (rl' <= rl)%nat -> parse_string rl' text = PyExn RecursionError.
+Proof. exact recursion_monotone. Qed.
+Print Assumptions C41_recursion_monotone.
 
 (* rules enforced while parsing: every accepted schema has unique declarations per table, non-empty enums
    with unique keywords, non-empty groups, well-formed arities, known and unique facets, targets exactly on
@@ -56,3 +65,52 @@ Theorem C41_sound_parse_rules :
     parse_string rl text = Ok s -> schema_syn s /\ schema_lines (cnl text + 1) s.
 Proof. exact parse_string_syn. Qed.
 Print Assumptions C41_sound_parse_rules.
+
+(* soundness: every accepted schema satisfies all documented rules (WellFormed = the rules above and the
+   rules of _validate: no dangling use/child/alias/enum/namespace reference, acyclic use graph, group and
+   element constraints name their attributes, variant groups have no use/required, children unique, no
+   duplicate attribute after group expansion, `requires a b`, arity restrictions of file/bool/chars, facet
+   payload rules, min <= max, required excludes a default, defaults agree with type and arity) *)
+Theorem C41_sound :
+  forall (rl : nat) (text : str) (s : schema), parse_string rl text = Ok s -> WellFormed s.
+Proof. exact parse_string_sound. Qed.
+Print Assumptions C41_sound.
+
+(* the same for _validate alone, on ANY schema value with unique group names (not only parser output) *)
+Theorem C41_validate_sound :
+  forall (rl : nat) (s : schema), NoDup (map g_name (s_groups s)) -> validate rl s = VOk -> schema_rules s.
+Proof. exact validate_sound. Qed.
+Print Assumptions C41_validate_sound.
+
+(* "a schema breaking one rule is rejected": if the text parses to a schema value that violates any rule,
+   parse_string raises SchemaError (with a line inside the text) - under the recursion-limit proviso.
+   The converse direction (every well-formed schema is accepted) is NOT proved; it is only observed by the
+   correspondence run on generated valid schemas. *)
+Theorem C41_complete_rule_breaking_rejected :
+  forall (rl : nat) (text : str) (s : schema),
+    (groups_of text + 2 <= rl)%nat -> parse_text text = Ok s -> ~ WellFormed s ->
+    exists l, parse_string rl text = SchemaErr l /\ 1 <= l <= cnl text + 1.
+Proof. exact rule_breaking_rejected. Qed.
+Print Assumptions C41_complete_rule_breaking_rejected.
+
+(* non-vacuity: a text with a nested use, a variant group, an enum default and a constraint is accepted,
+   and one duplicate attribute via use turns it into a SchemaError on the line of the later declaration *)
+Example C41_example_accept :
+  is_ok (parse_string 50 (nstr "enum e { a = 0 b = 1 }
+group o variant { quat : double[4] = {1, 0, 0, 0}
+ euler : double[3] }
+group p { pos : double[3]
+ use o }
+element g : mjsGeom (xml=geom) { use p
+ t : enum<e> = b
+ name : id<g>
+ r : ref<g>
+ exclusive quat euler
+ child g * }"%string)) = true.
+Proof. vm_compute. reflexivity. Qed.
+
+Example C41_example_reject :
+  parse_string 50 (nstr "group p { pos : double[3] }
+element g { use p
+ pos : int }"%string) = SchemaErr 3.
+Proof. vm_compute. reflexivity. Qed.
